@@ -173,6 +173,17 @@ def check_state(rep, st, sels, stats, only=None):
     if "tree_.predict" in outs:
         cmp_.check("tree_.predict", "training-data-vs-labels_", lambda: m.tree_.predict(X.copy()), lab, True,
                    "the training array", {}, tags=("labels_",))
+    # the very array OBJECT that was handed to fit is a query like any other: same rows, same answers as a copy of it
+    Xfit = getattr(st, "Xfit", None)
+    if Xfit is not None:
+        with params.quiet():
+            for name, (fn, exact) in outs.items():
+                try:
+                    want = fn(Xfit.copy())
+                except Exception:
+                    continue
+                cmp_.check(name, "fit-array-object", lambda fn=fn: fn(Xfit), want, exact, "the array object given to fit vs a copy of it", {},
+                           tags=("identity",))
     # ---- queries with as many rows as the training set, and more ------------------------------------------------
     rs = np.random.RandomState(len(st.sid) + n)
     perms = [np.arange(n)[::-1], np.roll(np.arange(n), 1)] + [rs.permutation(n) for _ in range(3)]
